@@ -172,6 +172,9 @@ func Extract() *fx.Group {
 	sbf := fx.FindFunc(sf, "", "superblockFromBytes")
 	g.Bool("gateRequiresExtents", refusesOn(rd, "features.extents") || refusesOn(sbf, "features.extents"))
 	g.Bool("gateRefusesInlineData", refusesOn(rd, "features.dataInInode") || refusesOn(sbf, "features.dataInInode"))
+	// --- the feature gate as a decision table: every feature bit parseFeatureFlags names (features.go), and which of
+	// them ext4.Read refuses when set (`if sb.features.f { return nil, err }`) or requires (`if !sb.features.f {…}`)
+	gateTable(g, fx.Parse("filesystem/ext4/features.go"), rd, sbf, env)
 	// --- minimum inode length accepted by inodeFromBytes: `if len(b) < int(X)`
 	ifb := fx.FindFunc(inf, "", "inodeFromBytes")
 	minLen := int64(-1)
@@ -447,4 +450,77 @@ func deepFacts(g *fx.Group, ef *ast.File) {
 		refuses = refusesOn(lb, "count")
 	}
 	g.Bool("extentRefusesUnwritten", refuses)
+}
+
+// gateTable: names and values of the feature bits, and the open decision on them.
+func gateTable(g *fx.Group, ff *ast.File, rd, sbf *ast.FuncDecl, env map[string]int64) {
+	type bit struct {
+		field string
+		value int64
+	}
+	words := map[string][]bit{}
+	pf := fx.FindFunc(ff, "", "parseFeatureFlags")
+	if pf == nil {
+		g.Missing("parseFeatureFlags")
+	} else {
+		ast.Inspect(pf.Body, func(n ast.Node) bool {
+			kv, ok := n.(*ast.KeyValueExpr)
+			if !ok {
+				return true
+			}
+			call, ok := kv.Value.(*ast.CallExpr)
+			if !ok || len(call.Args) != 1 {
+				return true
+			}
+			sel, ok := call.Fun.(*ast.SelectorExpr)
+			if !ok || sel.Sel.Name != "included" {
+				return true
+			}
+			v, ok := eval(sel.X, env)
+			if !ok {
+				g.Missing("feature constant " + fx.Src(sel.X))
+				return true
+			}
+			w := fx.Src(call.Args[0])
+			words[w] = append(words[w], bit{fx.Src(kv.Key), v})
+			return true
+		})
+	}
+	cond := func(fn *ast.FuncDecl, want string) bool {
+		if fn == nil {
+			return false
+		}
+		found := false
+		ast.Inspect(fn.Body, func(n ast.Node) bool {
+			is, ok := n.(*ast.IfStmt)
+			if !ok || is.Init != nil || fx.Src(is.Cond) != want {
+				return true
+			}
+			for _, st := range is.Body.List {
+				if r, ok := st.(*ast.ReturnStmt); ok && len(r.Results) > 0 && fx.Src(r.Results[len(r.Results)-1]) != "nil" {
+					found = true
+				}
+			}
+			return true
+		})
+		return found
+	}
+	for _, w := range [][2]string{{"incompatFlags", "Incompat"}, {"roCompatFlags", "RoCompat"}, {"compatFlags", "Compat"}} {
+		var names []string
+		var vals, refused, required []int64
+		for _, b := range words[w[0]] {
+			names = append(names, b.field)
+			vals = append(vals, b.value)
+			if cond(rd, "sb.features."+b.field) || cond(sbf, "features."+b.field) {
+				refused = append(refused, b.value)
+			}
+			if cond(rd, "!sb.features."+b.field) || cond(sbf, "!features."+b.field) {
+				required = append(required, b.value)
+			}
+		}
+		g.Strs("feat"+w[1]+"Names", names)
+		g.Nats("feat"+w[1]+"Bits", vals)
+		g.Nats("gate"+w[1]+"Refused", refused)
+		g.Nats("gate"+w[1]+"Required", required)
+	}
 }
